@@ -225,7 +225,7 @@ def corpus(ctx, rng):
                 seen.append(k)
                 nm = ln[17:20].strip()
                 tr.append({"key": k, "name": nm, "cls": "aa" if nm in gen.AMINO else ("wat" if nm == "HOH" else "other"), "n": False,
-                           "c": False, "nn": False, "nc": False})
+                           "c": False, "nn": False, "nc": False, "real": True})
     for ff in (["AMBER", "PARSE"] if ctx.quick else ffs):
         jobs.append({"what": f"5vav cyclic ff={ff}", "text": cyc_text, "args": [f"--ff={ff}"], "truth": tr, "strands": []})
     return jobs
